@@ -98,7 +98,7 @@ def h_query2(eng, size):
 OPS = ("add", "remove", "move", "readd")
 
 
-def h_history(eng, size, ops, natoms=3):
+def h_history(eng, size, ops, natoms=3, stale=False):
     cells, structures = _mods()
 
     class Bio:
@@ -107,7 +107,9 @@ def h_history(eng, size, ops, natoms=3):
     atoms = [_atom(eng, structures, f"p{i}") for i in range(natoms)]
     bio = Bio()
     bio.atoms = atoms[:-1]  # last atom starts outside the map
-    atoms[-1].cell = None
+    # stale: the outside atom still carries the key it had in an earlier map of another cell size (pdb2pqr
+    # builds a 2 A map and later a 5 A map over the same atom objects); it is then ADDED to the map under test
+    atoms[-1].cell = (15, -15, 30) if stale else None
     present = {id(x): True for x in bio.atoms}
     present[id(atoms[-1])] = False
     c = _mk_cells(cells, size, eng.symbolic)
@@ -230,6 +232,126 @@ def h_debump_site(eng, resname, anglenum, size):
 
 
 # ---------------------------------------------------------------------------
+# Q4b: the whole debump scan (Debump.debump_residue): whatever way the scan ends, every atom is binned
+# where it is.  The map is a recorder of the coordinates at registration time (what the key is a function of:
+# key lemma Q1), so no forking happens inside the scan; keys are only computed, by the real add_cell, for
+# an atom whose registered and current coordinates are not the same terms.
+# ---------------------------------------------------------------------------
+
+
+class _CoordLog:
+    """cells stand-in: which atom objects are in the map, and with which coordinates they were registered"""
+
+    def __init__(self):
+        self.at = {}
+        self.atoms = {}
+
+    def assign_cells(self, bio):
+        for a in bio.atoms:
+            self.add_cell(a)
+
+    def add_cell(self, atom):
+        self.at[id(atom)] = (atom.x, atom.y, atom.z)
+        self.atoms[id(atom)] = atom
+
+    def remove_cell(self, atom):
+        self.at.pop(id(atom), None)
+        self.atoms.pop(id(atom), None)
+
+    def get_near_cells(self, atom):
+        return []
+
+
+def _same_term(a, b):
+    if core.is_sym(a) and core.is_sym(b):
+        return a.t.eq(b.t)
+    if core.is_sym(a) or core.is_sym(b):
+        return False
+    return a == b
+
+
+def _check_binned_where_it_is(eng, cells, structures, log, atoms, size, what):
+    for a in atoms:
+        reg = log.at.get(id(a))
+        eng.check(reg is not None, "has-cell", note=f"{a.name} is not in the cell map after {what}")
+        if reg is None:
+            continue
+        cur = (a.x, a.y, a.z)
+        if all(_same_term(r, c) for r, c in zip(reg, cur)):
+            eng.check(True, "cell-matches-coordinates")
+            continue
+        with patched(*_shims(eng, cells)):
+            probe = structures.Atom()
+            probe.x, probe.y, probe.z = reg
+            k_reg = _expected_key(cells, size, probe, structures)
+            k_cur = _expected_key(cells, size, a, structures)
+        eng.check(And(*[core.same(k_reg[d], k_cur[d]) for d in range(3)]), "cell-matches-coordinates", note=f"{a.name}: binned at {tuple(str(v) for v in reg)} but located at {tuple(str(v) for v in cur)} after {what} (neighbour queries look in the wrong cell)")
+
+
+def h_debump_scan(eng, resname, steps, rounds, size=2):
+    from pdb2pqr import debump, utilities
+
+    cells, structures = _mods()
+    bm, _ = fixtures.prepared(fixtures.peptide_lines(["GLY", resname, "GLY"]))
+    res = bm.residues[1]
+    bm.set_reference_distance()
+    res.dihedrals = [0.0] * len(res.reference.dihedrals)
+    anglenum = 0
+    names = res.reference.dihedrals[anglenum].split()
+    moved = res.get_moveable_names(names[2])
+    for nm in moved:
+        a = res.get_atom(nm)
+        a.x, a.y, a.z = eng.real(f"{nm}_x0"), eng.real(f"{nm}_y0"), eng.real(f"{nm}_z0")
+    deb = debump.Debump(bm)
+    log = _CoordLog()
+
+    class Bio:
+        atoms = list(res.atoms)
+
+    log.assign_cells(Bio)
+    deb.cells = log
+    calls = {"rot": 0, "score": 0, "conf": 0, "pick": 0}
+    pivot = res.get_atom(names[1]).coords
+
+    class Quat:
+        @staticmethod
+        def qchichange(initcoords, movecoords, diff):
+            calls["rot"] += 1
+            k = calls["rot"]
+            # rotation abstracted: arbitrary new positions (relative to the pivot, as the caller expects)
+            return [[eng.real(f"{nm}_{ax}_rot{k}") - pivot[d] for d, ax in enumerate("xyz")] for nm in moved]
+
+    def score(self, residue, num):
+        calls["score"] += 1
+        v = eng.real(f"score{calls['score']}")
+        eng.assume(v >= 0)
+        return v
+
+    def conflicts(self, residue, write_conflict_info=False):
+        calls["conf"] += 1
+        return [moved[0]] if eng.flag(f"conflicts{calls['conf']}") else []
+
+    def pick(conflict_names, oldnum):
+        calls["pick"] += 1
+        return anglenum if calls["pick"] <= rounds else -1
+
+    res.pick_dihedral_angle = pick
+    np_shim = [(utilities, "np", shims.NP), (debump, "int", core.sym_int_t), (debump, "abs", core.sym_abs)] if eng.symbolic else []
+    with patched(
+        (debump, "quat", Quat),
+        (utilities, "dihedral", lambda *a: 0.0),
+        (debump.Debump, "score_dihedral_angle", score),
+        (debump.Debump, "find_residue_conflicts", conflicts),
+        (debump, "DEBUMP_ANGLE_STEPS", steps),
+        (debump, "DEBUMP_ANGLE_TEST_COUNT", rounds),
+        *np_shim,
+    ):
+        ok = deb.debump_residue(res, [moved[0]])
+    eng.note(f"debump_residue -> {ok}; {calls}")
+    _check_binned_where_it_is(eng, cells, structures, log, Bio.atoms, size, f"debump_residue (returned {ok})")
+
+
+# ---------------------------------------------------------------------------
 # Q5: the flip call sites (hydrogens/structures.py Flip.__init__ / fix_flip / finalize / complete)
 # ---------------------------------------------------------------------------
 
@@ -326,8 +448,17 @@ def obligations(tier):
         n0 = len(obs)
         hist(5, 2, 2)
         obs[n0:] = [o for o in obs[n0:] if o.case["ops"][0][0] == "move"]
+    for size in (2, 5):
+        for natoms in (2,) if tier == "quick" else (2, 3):
+            last = natoms - 1
+            for tail in ([], [("move", last)], [("move", 0)]) if tier == "thorough" else ([],):
+                seq = [("add", last)] + tail
+                tag = "-".join(f"{op}{who}" for op, who in seq)
+                obs.append(Obligation(f"history-stale-size{size}-atoms{natoms}-{tag}", h_history, {"size": size, "ops": seq, "natoms": natoms, "stale": True}, group="history", time_cap=3000, max_paths=200000))
     for s in (2, 5) if tier == "thorough" else (2,):
         obs.append(Obligation(f"debump-site-SER-chi1-size{s}", h_debump_site, {"resname": "SER", "anglenum": 0, "size": s}, group="debump-site", time_cap=3000, max_paths=200000))
+    for resname, steps, rounds in (("SER", 3, 1),) if tier == "quick" else (("SER", 3, 2), ("SER", 4, 1), ("CYS", 3, 1), ("LYS", 3, 1), ("ARG", 2, 2)):
+        obs.append(Obligation(f"debump-scan-{resname}-steps{steps}-rounds{rounds}", h_debump_scan, dict(resname=resname, steps=steps, rounds=rounds), group="debump-scan", time_cap=3000, max_paths=200000))
     if tier == "thorough":
         obs.append(Obligation("debump-site-CYS-chi1-size2", h_debump_site, {"resname": "CYS", "anglenum": 0, "size": 2}, group="debump-site", time_cap=3000, max_paths=200000))
     for r in ("ASN",) if tier == "quick" else ("ASN", "GLN", "HIS"):
